@@ -70,7 +70,7 @@ package metric
 //@   modifies nothing
 //@   grid 0 100
 //@   ensures[C12] !v2TemporalKnown(m) ==> result === 0.0
-//@   ensures[C04t,grid] m != nil && v2BaseOK(m.Base) && !v2TempEmpty(m) && v2TempValuesOK(m) ==> near1(result, v2_temporal_x(kb, m.E, m.RL, m.RC)) && result >= 0.0 && result <= real(kb) / 10.0 + 0.0
+//@   ensures[C04t,grid] m != nil && v2BaseOK(m.Base) && !v2TempEmpty(m) && v2TempValuesOK(m) ==> near1(result, v2_temporal_x(kb, m.E, m.RL, m.RC)) && result >= 0.0 && result <= tenth(kb)
 //@   ensures[C04e,grid] m != nil && v2BaseOK(m.Base) && v2TempEmpty(m) ==> result == tenth(kb)
 //@   family temporal[C04t,grid] when m != nil && v2BaseOK(m.Base) && !v2TempEmpty(m) && v2TempValuesOK(m): m.E in v2.E, m.RL in v2.RL, m.RC in v2.RC ; replace Base.Score#0 grid 0 100 pm0 as kb
 //@   family empty[C04e,grid] when m != nil && v2BaseOK(m.Base) && v2TempEmpty(m): ; replace Base.Score#0 grid 0 100 pm0 as kb
@@ -90,3 +90,29 @@ package metric
 //@   ensures[C12] !v2EnvKnown(m) ==> result != nil
 //@   ensures[C11] m == nil ==> is(result, ErrNoEnvironmentalMetrics)
 //@   ensures[C11] m != nil && v2TemporalKnown(m.Temporal) && !v2EnvKnown(m) ==> is(result, ErrNoEnvironmentalMetrics)
+
+// Environmental.Score is decided in stages (cut points); ghost integers: kb (Base.Score), kab (adjusted base score =
+// Base.score(adjustedImpact)), kt (adjusted temporal score). Negative tenths down to -2.0 can arise where the FIRST
+// equation itself is negative (C05's stated exception), hence the grid -20..100.
+//@ func (m *Environmental) Score() float64
+//@   requires m == nil || inv_v2Env(m)
+//@   modifies nothing
+//@   grid -20 100
+//@   ensures[C12] !v2EnvKnown(m) ==> result === 0.0
+//@   ensures[C05adj] m != nil && v2BaseOK(m.Base) && !v2EnvEmpty(m) && v2EnvValuesOK(m) ==> true
+//@   ensures[C05tmp] m != nil && v2BaseOK(m.Base) && !v2EnvEmpty(m) && v2EnvValuesOK(m) && !v2TempEmpty(m.Temporal) && v2TempValuesOK(m.Temporal) ==> true
+//@   ensures[C05fin,grid] m != nil && v2BaseOK(m.Base) && !v2EnvEmpty(m) && v2EnvValuesOK(m) && !v2TempEmpty(m.Temporal) && v2TempValuesOK(m.Temporal) ==> near1(result, v2_env_x(kt, m.CDP, m.TD)) && result >= 0.0 - 2.0 && result <= 10.0
+//@   ensures[C05fin0,grid] m != nil && v2BaseOK(m.Base) && !v2EnvEmpty(m) && v2EnvValuesOK(m) && v2TempEmpty(m.Temporal) ==> near1(result, v2_env_x(kab, m.CDP, m.TD)) && result >= 0.0 - 2.0 && result <= 10.0
+//@   ensures[C05none,grid] m != nil && v2BaseOK(m.Base) && v2EnvEmpty(m) && !v2TempEmpty(m.Temporal) && v2TempValuesOK(m.Temporal) ==> near1(result, v2_temporal_x(kb, m.E, m.RL, m.RC)) && result >= 0.0 && result <= 10.0
+//@   ensures[C05none0,grid] m != nil && v2BaseOK(m.Base) && v2EnvEmpty(m) && v2TempEmpty(m.Temporal) ==> result == tenth(kb)
+//@   family adjbase[C05adj] when m != nil && v2BaseOK(m.Base) && !v2EnvEmpty(m) && v2EnvValuesOK(m): m.AV in v2.AV, m.AC in v2.AC, m.Au in v2.Au, m.C in v2.C, m.I in v2.I, m.A in v2.A, m.CR in v2.CR, m.IR in v2.IR, m.AR in v2.AR
+//@        ; stop Base.score#0 sat near1(cutval, v2_adjbase_x(m.AV, m.AC, m.Au, m.C, m.I, m.A, m.CR, m.IR, m.AR)) && cutval >= 0.0 - 2.0 && cutval <= 10.0
+//@   family adjtemp[C05tmp] when m != nil && v2BaseOK(m.Base) && !v2EnvEmpty(m) && v2EnvValuesOK(m) && !v2TempEmpty(m.Temporal) && v2TempValuesOK(m.Temporal): m.E in v2.E, m.RL in v2.RL, m.RC in v2.RC
+//@        ; replace Base.score#0 grid -20 100 pm0 as kab ; stop Temporal.score#0 sat near1(cutval, v2_temporal_x(kab, m.E, m.RL, m.RC)) && cutval >= 0.0 - 2.0 && cutval <= 10.0
+//@   family final[C05fin,grid] when m != nil && v2BaseOK(m.Base) && !v2EnvEmpty(m) && v2EnvValuesOK(m) && !v2TempEmpty(m.Temporal) && v2TempValuesOK(m.Temporal): m.CDP in v2.CDP, m.TD in v2.TD
+//@        ; replace Temporal.score#0 grid -20 100 pm0 as kt
+//@   family final0[C05fin0,grid] when m != nil && v2BaseOK(m.Base) && !v2EnvEmpty(m) && v2EnvValuesOK(m) && v2TempEmpty(m.Temporal): m.CDP in v2.CDP, m.TD in v2.TD
+//@        ; replace Base.score#0 grid -20 100 pm0 as kab
+//@   family none[C05none,grid] when m != nil && v2BaseOK(m.Base) && v2EnvEmpty(m) && !v2TempEmpty(m.Temporal) && v2TempValuesOK(m.Temporal): m.E in v2.E, m.RL in v2.RL, m.RC in v2.RC
+//@        ; replace Base.Score#0 grid 0 100 pm0 as kb
+//@   family none0[C05none0,grid] when m != nil && v2BaseOK(m.Base) && v2EnvEmpty(m) && v2TempEmpty(m.Temporal): ; replace Base.Score#0 grid 0 100 pm0 as kb
